@@ -178,7 +178,7 @@ def check_parse_controls(ctx, f, R='T3'):
         steps = 0
         def ev(self, e, st):
             self.steps += 1
-            if self.steps > 40000:
+            if self.steps > 8000:      # (the decoder as it stands takes about 550 on the longest list)
                 raise absx.TooManyPaths()
             return absx.Interp.ev(self, e, st)
     def decode(ctls):
@@ -214,7 +214,10 @@ def check_parse_controls(ctx, f, R='T3'):
         what = '[%s]' % ', '.join('%s (%s)' % (c[1], c[0]) for c in ctls)
         if outs is None or len(outs) != 1 or outs[0].kind not in ('val', 'ret') or outs[0].val[0] != 'vec':
             kinds = 'too many paths' if outs is None else ', '.join(sorted('panic' if o.kind == 'div' else 'loop not finished' if o.kind == 'loop' else absx.fmt(o.val)[:40] for o in outs)) or 'no outcome'
-            undecided.append('%s: %s' % (what, kinds)); continue
+            undecided.append('%s: %s' % (what, kinds))
+            if len(undecided) >= 12:
+                break       # not a decoder this evaluation understands: the rule below fails closed, the rest would say the same
+            continue
         ents = [entry(t) for t in outs[0].val[1]]
         if any(x is None for x in ents):
             shape.append('%s: %s' % (what, absx.fmt(outs[0].val)[:80])); continue
@@ -274,7 +277,8 @@ def check_parse_controls(ctx, f, R='T3'):
         bad = known_bad.get(k, [])
         ctx.add(R + '.known-type-lookup', k, L, table_exact and not bad,
                 'the recognised control type is not the known-type table\'s entry for this control\'s own OID: %s' % ('; '.join(bad[:2])[:600] if bad else 'the table\'s initialiser does more than insert constant pairs: its content is not known'))
-    ctx.floor(R, 'literal control lists the list decoder was interpreted on', n_eval, 500)
+    if len(undecided) < 12:
+        ctx.floor(R, 'literal control lists the list decoder was interpreted on', n_eval, 500)
     # the OID table
     for k in sorted(set(got_table) | set(RFC_CONTROL_OIDS)):
         ctx.add(R + '.oid-table', k, loc(init['body']), got_table.get(k) == RFC_CONTROL_OIDS.get(k), 'OID table: %s -> %s, RFCs: %s' % (k, got_table.get(k), RFC_CONTROL_OIDS.get(k)))
